@@ -446,6 +446,10 @@ func pow2Digits(t *rapid.T) string {
 	return head.String() + digitString(t, ir(t, 0, 12, "tail"))
 }
 
+// nearGrammar: '/' and ':'..'@' around the digits, '*' ',' around the signs and the point, 'D' 'F' 'd' 'f' around
+// the exponent marker, '^' '`' around '_', 'O' 'o' 'l' 'I' look-alikes, digits with bit 4, 6 or 7 flipped.
+const nearGrammar = "/:;<=>?@*,DFdf^`OolI\x10\x15\x19\x20\x70\x75\x79\xb0\xb5\xb9\xae\xab\xad\xc5\xe5\xdf"
+
 const mutChars = "0123456789.eE+-_ x\x00infatyINFATY"
 
 func genInvalidCandidate(t *rapid.T) string {
@@ -466,8 +470,8 @@ func genInvalidCandidate(t *rapid.T) string {
 	}
 	// mutate a valid literal
 	s := []byte(genValidLiteral(t, false))
-	if len(s) > 60 {
-		s = s[:60]
+	if len(s) > 90 {
+		s = s[:90]
 	}
 	for k := ir(t, 1, 2, "muts"); k > 0; k-- {
 		pos := 0
@@ -475,6 +479,15 @@ func genInvalidCandidate(t *rapid.T) string {
 			pos = ir(t, 0, len(s), "pos")
 		}
 		c := mutChars[ir(t, 0, len(mutChars)-1, "char")]
+		switch ir(t, 0, 3, "charKind") {
+		case 0:
+			// the ASCII neighbours of the grammar's own characters and their variants with one bit changed: a
+			// range test written as a mask (c&0xf0 == '0'), an off-by-one bound ('9'+1 = ':'), a case fold by
+			// OR 0x20 or a table indexed by c-'0' accept exactly these
+			c = nearGrammar[ir(t, 0, len(nearGrammar)-1, "near")]
+		case 1:
+			c = byte(ir(t, 0, 255, "anyByte"))
+		}
 		switch ir(t, 0, 2, "op") {
 		case 0:
 			s = append(s[:pos], append([]byte{c}, s[pos:]...)...)
